@@ -16,14 +16,16 @@ What is the library's (transcribed from `src/adapters/udp.rs`, `src/network/driv
 * `fromListener` — `Endpoint::from_listener`: only local ids of non connection-oriented transports.
 
 What is the environment (assumed, stated in the trusted base): the kernel's datagram service on an idle
-loopback — a datagram of at most `kMax` bytes sent to a bound socket is queued there whole, with its
+loopback — a datagram of at most `kmax` bytes (65507 over IPv4, 65527 over IPv6) sent to a bound socket is queued there whole, with its
 source address, unless that socket is connected to somebody else; `recv` hands over the oldest queued
 datagram cut to the caller's buffer; nothing else ever enters a queue.  Addresses are socket indices
 (never reused). -/
 namespace Mio.Udp
 
-/-- largest UDP payload the kernel accepts over IPv4 (65535 − 20 − 8) -/
-def kMax : Nat := 65507
+/-- largest UDP payload the kernel accepts: over IPv4 65535 − 20 − 8; over IPv6 the 40-byte header is
+not counted in the 16-bit length, so 65535 − 8 -/
+def kMax4 : Nat := 65507
+def kMax6 : Nat := 65527
 
 structure Dgram where
   src : Nat
@@ -65,9 +67,11 @@ structure SendRec where
   data : Bytes
   status : Status
   bound : Bool
+  viaLibrary : Bool             -- the call went through the library's `send` (not a foreign socket)
 deriving Repr
 
 structure World where
+  kmax : Nat := kMax4           -- the address family of this world's sockets: `kMax4` or `kMax6`
   socks : List Sock := []
   log : List SendRec := []      -- ghost: the history of send calls
 deriving Repr
@@ -85,8 +89,8 @@ def enqueue (socks : List Sock) (dst : Nat) (d : Dgram) : List Sock :=
 inductive KRes | ok | emsgsize
 deriving DecidableEq, Repr
 
-def kSend (socks : List Sock) (src dst : Nat) (data : Bytes) : List Sock × KRes :=
-  if data.length > kMax then (socks, .emsgsize) else (enqueue socks dst ⟨src, data⟩, .ok)
+def kSend (kmax : Nat) (socks : List Sock) (src dst : Nat) (data : Bytes) : List Sock × KRes :=
+  if data.length > kmax then (socks, .emsgsize) else (enqueue socks dst ⟨src, data⟩, .ok)
 
 /-- `recv(buf)`: the datagram cut to the buffer -/
 def kRecv (buf : Nat) (d : Dgram) : Dgram := { d with data := d.data.take buf }
@@ -97,14 +101,14 @@ def maxLen : Nat := Generated.udpMaxLocalPayloadLen
 /-- size of the stack buffer in `receive` / `accept` (`[u8; MAX_LOCAL_PAYLOAD_LEN]`) -/
 def bufLen : Nat := Generated.udpMaxLocalPayloadLen
 
-def sendPacket (socks : List Sock) (src dst : Nat) (data : Bytes) : List Sock × Status :=
+def sendPacket (kmax : Nat) (socks : List Sock) (src dst : Nat) (data : Bytes) : List Sock × Status :=
   if data.length > maxLen then (socks, .maxPacketSizeExceeded)
-  else match kSend socks src dst data with
+  else match kSend kmax socks src dst data with
     | (s', .ok) => (s', .sent)
     | (s', .emsgsize) => (s', .maxPacketSizeExceeded)
 
 def record (w : World) (src dst : Nat) (data : Bytes) (r : List Sock × Status) : World × Status :=
-  ({ socks := r.1, log := w.log ++ [⟨src, dst, data, r.2, decide (dst < w.socks.length)⟩] }, r.2)
+  ({ w with socks := r.1, log := w.log ++ [⟨src, dst, data, r.2, decide (dst < w.socks.length), true⟩] }, r.2)
 
 /-- `Driver::send(endpoint, data)` -/
 def send (w : World) (ep : Endpoint) (data : Bytes) : World × Status :=
@@ -112,8 +116,8 @@ def send (w : World) (ep : Endpoint) (data : Bytes) : World × Status :=
   | none => (w, .resourceNotFound)
   | some s =>
     match s.kind with
-    | .listener => record w ep.rid ep.addr data (sendPacket w.socks ep.rid ep.addr data)
-    | .connected p => record w ep.rid p data (sendPacket w.socks ep.rid p data)
+    | .listener => record w ep.rid ep.addr data (sendPacket w.kmax w.socks ep.rid ep.addr data)
+    | .connected p => record w ep.rid p data (sendPacket w.kmax w.socks ep.rid p data)
     | .raw => (w, .resourceNotFound)
 
 /-- a foreign socket's `send_to` -/
@@ -121,9 +125,9 @@ def rawSend (w : World) (i dst : Nat) (data : Bytes) : World :=
   match w.socks[i]? with
   | none => w
   | some _ =>
-    let r := kSend w.socks i dst data
-    { socks := r.1, log := w.log ++ [⟨i, dst, data, if r.2 = .ok then .sent else .maxPacketSizeExceeded,
-                                      decide (dst < w.socks.length)⟩] }
+    let r := kSend w.kmax w.socks i dst data
+    { w with socks := r.1, log := w.log ++ [⟨i, dst, data, if r.2 = .ok then .sent else .maxPacketSizeExceeded,
+                                             decide (dst < w.socks.length), false⟩] }
 
 /-- the event built for one received datagram -/
 def evOf (i : Nat) (k : Kind) (d : Dgram) : Ev :=
@@ -131,10 +135,17 @@ def evOf (i : Nat) (k : Kind) (d : Dgram) : Ev :=
   | .connected p => ⟨⟨i, p⟩, d.data⟩
   | _ => ⟨⟨i, d.src⟩, d.data⟩
 
+/-- what the reader's `recv` makes of a queued datagram: the library reads into its `bufLen` buffer; a
+foreign socket is assumed to read with a buffer large enough for anything -/
+def cutK (k : Kind) (d : Dgram) : Dgram :=
+  match k with
+  | .raw => d
+  | _ => kRecv bufLen d
+
 /-- the receive loop: one `recv` per iteration until the queue is empty (`WouldBlock`) -/
 def recvLoop (i : Nat) (k : Kind) : List Dgram → List Ev
   | [] => []
-  | d :: q => evOf i k (kRecv bufLen d) :: recvLoop i k q
+  | d :: q => evOf i k (cutK k d) :: recvLoop i k q
 
 /-- a readiness event for socket `i` (or a foreign socket reading everything it has) -/
 def poll (w : World) (i : Nat) : World :=
@@ -169,6 +180,9 @@ def step (w : World) : Act → World
 
 def run (w : World) (acts : List Act) : World := acts.foldl step w
 
-def Reachable (w : World) : Prop := ∃ acts, run {} acts = w
+/-- the two worlds: all sockets IPv4, or all sockets IPv6 -/
+def init (v6 : Bool) : World := { kmax := if v6 then kMax6 else kMax4 }
+
+def Reachable (w : World) : Prop := ∃ v6 acts, run (init v6) acts = w
 
 end Mio.Udp
